@@ -53,6 +53,13 @@ def edits(rng, lines, limit):
     """single-edit corruptions of a list of utterances"""
     out = []
     n = len(lines)
+    # the substituted / inserted character: foreign ('z') or, half of the time, one of the text's own characters (the
+    # result may then be consistent again, e.g. a character replaced by itself or 'a' inserted next to an 'a' that the
+    # other side also has: the expectation is computed from the definition by the callers)
+    own = sorted({c for l in lines for c in l if not c.isspace()}) or ['a']
+
+    def ch():
+        return ('z', '') if rng.random() < 0.5 else (rng.choice(own), '-own')
     for i in range(n):
         out.append(('drop-utt', lines[:i] + lines[i + 1:]))
         out.append(('dup-utt', lines[:i + 1] + lines[i:]))
@@ -62,10 +69,12 @@ def edits(rng, lines, limit):
         for p in range(len(s) + 1):
             if p < len(s):
                 out.append(('drop-char', lines[:i] + [s[:p] + s[p + 1:]] + lines[i + 1:]))
-                out.append(('subst-char', lines[:i] + [s[:p] + 'z' + s[p + 1:]] + lines[i + 1:]))
+                c, tag = ch()
+                out.append(('subst-char' + tag, lines[:i] + [s[:p] + c + s[p + 1:]] + lines[i + 1:]))
                 if p + 1 < len(s):
                     out.append(('transpose', lines[:i] + [s[:p] + s[p + 1] + s[p] + s[p + 2:]] + lines[i + 1:]))
-            out.append(('insert-char', lines[:i] + [s[:p] + 'z' + s[p:]] + lines[i + 1:]))
+            c, tag = ch()
+            out.append(('insert-char' + tag, lines[:i] + [s[:p] + c + s[p:]] + lines[i + 1:]))
             out.append(('insert-space', lines[:i] + [s[:p] + ' ' + s[p:]] + lines[i + 1:]))
     if len(out) > limit:
         out = rng.sample(out, limit)
@@ -181,7 +190,7 @@ def main():
     finish_proof_failures(ck, failures + problems)
     return ck.finish(
         rule='%d consistent random triples (text, gold, units) and all their single-edit corruptions (drop/duplicate/swap utterance; '
-             'drop/insert/substitute/transpose character and insert space at every position; sampled to %d per list) applied to text, gold, '
+             'drop/insert/substitute (a foreign character or one of the text\'s own) /transpose character and insert space at every position; sampled to %d per list) applied to text, gold, '
              'units in turn, through evaluate (with and without units), summary and compute_class_labels; respaced and blank-line variants. '
              'Expectation computed from the definition of consistency, not from how the case was built. Non-trivial = rejected input.'
              % (ntriples, per))
